@@ -133,11 +133,15 @@ Definition model_view (c : mig_case) :=
   let s := model_system c in (map inst_obs (s_insts s), vt_obs (s_db s), d_applied (s_db s)).
 
 
-(* theorem hypotheses / known-finding classifiers evaluated on a case (bit set, decoded by checks/migrun.py):
-   1 ascending, 2 versions_i32, 4 rows_i32, 8 recorded at some version k (at_version), 16 id_conflict *)
+(* theorem hypotheses / classifiers evaluated on a case (bit set, decoded by checks/migrun.py):
+   1 ascending, 2 versions_u32, 4 rows_u32, 8 recorded at some version k (at_version), 16 id_conflict,
+   32 every compiled version < 2^31 (classifier of the repaired finding C09-version-beyond-i32-reapplied),
+   64 versions_distinct *)
 Definition recorded_k (d : dbstate) : N :=
   match max_version (db_rows d) with Some m => Z.to_N m | None => 0%N end.
 Definition flag_code (c : mig_case) : nat :=
-  (if ascending (k_ms c) then 1 else 0) + (if versions_i32 (k_ms c) then 2 else 0) +
-  (if rows_i32 (k_init c) then 4 else 0) + (if at_version (recorded_k (k_init c)) (k_init c) then 8 else 0) +
-  (if id_conflict (k_ms c) (k_init c) then 16 else 0).
+  (if ascending (k_ms c) then 1 else 0) + (if versions_u32 (k_ms c) then 2 else 0) +
+  (if rows_u32 (k_init c) then 4 else 0) + (if at_version (recorded_k (k_init c)) (k_init c) then 8 else 0) +
+  (if id_conflict (k_ms c) (k_init c) then 16 else 0) +
+  (if forallb (fun m => N.ltb (m_version m) 2147483648) (k_ms c) then 32 else 0) +
+  (if versions_distinct (db_rows (k_init c)) then 64 else 0).
